@@ -93,3 +93,10 @@ package opentype
 //@   ensures [decompressed-length] implies(result1 == nil && s.length != 0 && s.length < s.zLength, len(result0) == int(s.zLength))
 //@   ensures [empty-table] implies(s.length == 0, result1 == nil && len(result0) == 0)
 //@   modifies unspecified
+//@ func Loader.RawTableTo C19
+//@   mode int
+//@   requires [loader] pr != nil
+//@   ensures [listed-tables-are-read] implies(old(has(pr.tables, tag)) && old(pr.tables[tag].length) == 0, result1 == nil && len(result0) == 0)
+//@   ensures [length] implies(result1 == nil && old(has(pr.tables, tag)) && !(old(pr.tables[tag].length) != 0 && old(pr.tables[tag].length) < old(pr.tables[tag].zLength)), len(result0) == int(old(pr.tables[tag].length)))
+//@   ensures [missing] implies(!old(has(pr.tables, tag)), result1 != nil)
+//@   modifies unspecified
